@@ -79,3 +79,48 @@ package itemsfetcher
 //@   loop 1 invariant [subset] forall(j, 0, len(toFetch), exists(i, 0, _k, toFetch[j] == _range[i]))
 //@   loop 1 hint assert _k == iterold(_k) + 1 && len(toFetch) >= iterold(len(toFetch)) && len(toFetch) <= iterold(len(toFetch)) + 1 && forall(j, 0, iterold(len(toFetch)), toFetch[j] == iterold(toFetch[j]))
 //@   loop 1 hint assert len(toFetch) == iterold(len(toFetch)) + 1 ==> toFetch[len(toFetch) - 1] == _range[_k - 1]
+//@
+//@ // the request task made by the timer branch
+//@ funcfield (*Fetcher).loop$1.fetchItems
+//@   params ids
+//@   modifies gReqN, gReqFn, gReqIds
+//@   ghost gReqN = old(gReqN) + 1
+//@   ghost gReqFn = fnval
+//@   ghost gReqIds = ids
+//@ func (*Fetcher).loop$1
+//@   requires fetchItems != nil
+//@   modifies gReqN, gReqFn, gReqIds
+//@   ensures  gReqN == old(gReqN) + 1 && gReqFn == fetchItems && gReqIds == hashes
+//@
+//@ // what NotifyAnnounces hands to the goroutine: a batch with a requester function
+//@ chaninv Fetcher.notifications(v): v.fetchItems != nil
+//@ func (*Fetcher).NotifyAnnounces
+//@   requires f != nil && fetchItems != nil && f.cfg.MaxBatch > 0 && len(ids) + f.cfg.MaxBatch <= 9223372036854775807
+//@   ensures  result == nil || result == errTerminated
+//@   loop 1 invariant 0 <= start
+//@ func (*Fetcher).NotifyReceived
+//@   requires f != nil && f.cfg.MaxBatch > 0 && len(ids) + f.cfg.MaxBatch <= 9223372036854775807
+//@   ensures  result == nil || result == errTerminated
+//@   loop 1 invariant 0 <= start
+//@
+//@ // loop: the fetcher's goroutine. [armed] is its invariant: after every event (notification, receipt, timer tick), in
+//@ // every order, pending items imply an armed fetch timer. Received items are forgotten.
+//@ func (*Fetcher).loop
+//@   requires finv(f)
+//@   modifies f.announces.lru.items[*], f.announces.lru.weight, lel[f.announces.lru.evictList], llen[f.announces.lru.evictList], lidx[*], lown[*], nEvict, gEvictKey, gEvictVal, all(simplewlru.entry).value, all(simplewlru.entry).weight, f.fetching[*], gTimerArmed[*], allelems(announceData), allelems("interface{}")
+//@   loop 1 modifies f.announces.lru.items[*], f.announces.lru.weight, lel[f.announces.lru.evictList], llen[f.announces.lru.evictList], lidx[*], lown[*], nEvict, gEvictKey, gEvictVal, all(simplewlru.entry).value, all(simplewlru.entry).weight, f.fetching[*], gTimerArmed[*], allelems(announceData), allelems("interface{}")
+//@   loop 1 invariant finv(f) && fetchTimer != nil
+//@   loop 1 invariant [armed] pending(f) ==> gTimerArmed[fetchTimer]
+//@   loop 2 modifies f.announces.lru.items[*], f.announces.lru.weight, lel[f.announces.lru.evictList], llen[f.announces.lru.evictList], lidx[*], lown[*], nEvict, gEvictKey, gEvictVal, f.fetching[*]
+//@   loop 2 invariant finv(f) && 0 <= _k && _k <= len(_range)
+//@   loop 2 invariant [armed] pending(f) ==> gTimerArmed[fetchTimer]
+//@   loop 3 modifies all[*]
+//@   loop 3 invariant arrof(all) == arrof(atentry(all)) || arrfresh(all, _loopalloc)
+//@   loop 3 invariant finv(f) && 0 <= _k && _k <= len(_range)
+//@   loop 4 modifies f.announces.lru.items[*], f.announces.lru.weight, lel[f.announces.lru.evictList], llen[f.announces.lru.evictList], lidx[*], lown[*], nEvict, gEvictKey, gEvictVal, f.fetching[*], request[*], requestFns[*], allelems("interface{}")
+//@   loop 4 invariant finv(f) && 0 <= _k && _k <= len(_range) && request != nil && requestFns != nil
+//@   loop 5 modifies notArrivedMap[*]
+//@   loop 5 invariant finv(f) && 0 <= _k && _k <= len(_range) && notArrivedMap != nil
+//@   loop 6 modifies f.announces.lru.items[*], f.announces.lru.weight, lel[f.announces.lru.evictList], llen[f.announces.lru.evictList], lidx[*], lown[*], nEvict, gEvictKey, gEvictVal, f.fetching[*]
+//@   loop 6 invariant finv(f) && 0 <= _k && _k <= len(_range)
+//@   loop 7 invariant finv(f)
